@@ -332,4 +332,4 @@ Definition canonical : dprog := {|
          SParse PPickedType;
          SIfRaise (BNot (BTyEq RExpected RActual)) PDocstringC ]) ];
   dp_parse := {| pc_none := Some PDocstringC; pc_guard := Some ("typing.", PDocstringC);
-                 pc_catch := [(NameErrorC, PDocstringC)] |} |}.
+                 pc_catch := [(NameErrorC, PDocstringC); (ExceptionC, PDocstringC)] |} |}.
